@@ -44,6 +44,7 @@ type Gen struct {
 	ing map[string]IngressSpec
 	svc map[string]bool
 	sec map[string]int
+	shared int
 	cls map[string]string
 	ts  int
 }
@@ -382,6 +383,24 @@ func RequestsFor(ops []string) (reqs []Request, snis []string) {
 		}
 	}
 	return reqs, snis
+}
+
+// SharedSecOps rotates one secret name in EVERY namespace to the same new content in one go (a wildcard
+// certificate replicated into several namespaces and renewed everywhere at once).
+func (g *Gen) SharedSecOps() []string {
+	name := gen.Pick(g.R, g.C.Secrets)
+	g.shared++
+	var ops []string
+	for _, ns := range g.C.Namespaces {
+		key := ns + "/" + name
+		act := "+"
+		if g.sec[key] > 0 {
+			act = "~"
+		}
+		g.sec[key]++
+		ops = append(ops, fmt.Sprintf("sec%s%s!tls!%d!%s", act, key, SharedVersion+g.shared, "a.local+b.local"))
+	}
+	return ops
 }
 
 // ChurnOp is an endpoint / secret change of an existing object (what dynamic updates are made of).
